@@ -569,6 +569,68 @@ theorem real_hit_mono_freq {k1 b boost : ℝ} (segs : List SegStat) (f f' len : 
   rw [termScorer_eq]
   exact mono_freq hk hb0 hb1 havg hB (n_le_N_of_segments segs hok) hN hf hff (Or.inr (by omega))
 
+/-! ## the per-term boost of a fuzzy query can be zero or negative (known finding `fuzzy-term-boost-not-positive`)
+
+`FuzzyQuery` scores a dictionary term at edit distance `d` from the query term with `boost · (1 − d / min(len))`
+(`boostFromDistance`, search_fuzzy.go). Nothing keeps `d` below the smaller length: fuzziness 2 with a one-letter term, or
+fuzziness = length, gives a factor ≤ 0, and `score_pos` (which needs `0 < boost`) fails for that part: the part scores 0 or
+below, so a matching document can get a score that is not positive. (At `min(len) = 0` — an empty query term — the Go code
+divides by zero: the factor is `1 − Inf = −Inf` and the part's score NaN; in `ℝ` Lean's `d / 0 = 0`, so that corner is
+excluded by `0 < m` below.) -/
+
+theorem boostFromDistance_real (d m : ℕ) : (boostFromDistance d m : ℝ) = 1 - (d : ℝ) / (m : ℝ) := by
+  unfold boostFromDistance; simp only [lit_real, ofNat_real]; norm_num
+
+/-- **fuzzy_boost_nonpos_iff**: the factor is not positive exactly when the distance reaches the smaller length -/
+theorem fuzzy_boost_nonpos_iff {d m : ℕ} (hm : 0 < m) : (boostFromDistance d m : ℝ) ≤ 0 ↔ m ≤ d := by
+  rw [boostFromDistance_real]
+  have hm' : (0 : ℝ) < (m : ℝ) := by exact_mod_cast hm
+  rw [sub_nonpos, le_div_iff₀ hm', one_mul]
+  exact_mod_cast Iff.rfl
+
+/-- … and positive exactly when the distance stays below it (the case every hypothesis `0 < boost` above covers) -/
+theorem fuzzy_boost_pos_iff {d m : ℕ} (hm : 0 < m) : 0 < (boostFromDistance d m : ℝ) ↔ d < m := by
+  rw [← not_le, fuzzy_boost_nonpos_iff hm, not_le]
+
+/-- witness: the one-letter term "a" at distance 2 from "bc" gets the factor −1; "ab" at distance 2 from "cd" gets 0 -/
+theorem fuzzy_boost_witness : (boostFromDistance 2 1 : ℝ) = -1 ∧ (boostFromDistance 2 2 : ℝ) = 0 := by
+  constructor <;> (rw [boostFromDistance_real]; norm_num)
+
+/-- **score_nonpos_of_boost_nonpos**: with a boost ≤ 0 (and the other hypotheses of `score_pos`) the score is ≤ 0 — from
+`boost_linear` and `score_pos` at boost 1 -/
+theorem score_nonpos_of_boost_nonpos {k1 b avgdl boost : ℝ} {n N f dl : ℕ} (hk : 0 < k1) (hb0 : 0 ≤ b) (hb1 : b ≤ 1)
+    (ha : 0 < avgdl) (hB : boost ≤ 0) (hn : n ≤ N) (hN : N < 2 ^ 64) (hf : 1 ≤ f) (hd : b < 1 ∨ 0 < dl) :
+    (scorerOf k1 b avgdl boost n N).score f dl ≤ 0 := by
+  have h1 := score_pos (boost := 1) hk hb0 hb1 ha one_pos hn hN hf hd
+  have hl := boost_linear (k1 := k1) (b := b) (avgdl := avgdl) (boost := 1) (n := n) (N := N) (f := f) (dl := dl) boost
+  rw [mul_one] at hl
+  rw [hl]
+  exact mul_nonpos_of_nonpos_of_nonneg hB h1.le
+
+/-- **fuzzy_part_score_nonpos**: the part of a fuzzy query for a dictionary term whose distance reaches the smaller length
+scores ≤ 0 whatever the (positive) boost of the query — the property's "scores are positive" fails for a document that
+matches only through such terms -/
+theorem fuzzy_part_score_nonpos {k1 b avgdl qboost : ℝ} {n N f dl d sl tl : ℕ} (hk : 0 < k1) (hb0 : 0 ≤ b) (hb1 : b ≤ 1)
+    (ha : 0 < avgdl) (hq : 0 < qboost) (hn : n ≤ N) (hN : N < 2 ^ 64) (hf : 1 ≤ f) (hd : b < 1 ∨ 0 < dl)
+    (hd1 : 1 ≤ d) (hm : 0 < min sl tl) (hdm : min sl tl ≤ d) :
+    (scorerOf k1 b avgdl (fuzzyTermBoost qboost d sl tl) n N).score f dl ≤ 0 := by
+  apply score_nonpos_of_boost_nonpos hk hb0 hb1 ha _ hn hN hf hd
+  unfold fuzzyTermBoost
+  have hne : (d == 0) = false := by simp; omega
+  rw [hne]
+  exact mul_nonpos_of_nonneg_of_nonpos hq.le ((fuzzy_boost_nonpos_iff hm).mpr hdm)
+
+example : (scorerOf 1.2 0.75 2 (fuzzyTermBoost 1 2 1 2) 1 3).score 1 1 ≤ 0 :=
+  fuzzy_part_score_nonpos (by norm_num) (by norm_num) (by norm_num) (by norm_num) (by norm_num) (by decide) (by norm_num)
+    (by decide) (Or.inl (by norm_num)) (by decide) (by decide) (by decide)
+
+/-- the statements of `boostFromDistance`, of its caller and of `makeBatchSearchers` that the transcription rests on -/
+theorem fuzzy_facts_hold : fuzzyFacts.all (fun f => f.2) = true := by decide
+
+theorem fuzzy_facts_present : fuzzyFacts.map (fun f => f.1) =
+    ["boostFromDistance-is-one-minus-distance-over-min-length", "distance-starts-at-fuzziness-and-drops-per-smaller-automaton",
+     "query-term-itself-gets-boost-one", "term-searcher-boost-is-boost-times-term-boost"] := by decide
+
 /-! ## facts about the index and field code that the reachability argument rests on (re-extracted on every run) -/
 
 /-- `Snapshot.CollectionStats` folds `Merge` over the statistics of every segment, `postingsIterator.Count` sums the
